@@ -197,8 +197,10 @@ func newStructDesc(t reflect.Type) (*structDesc, error) {
 	eface := reflect.New(t).Interface()
 	d.initFunc, d.hasInitFunc = eface.(iInitDefault)
 
+	// only a field of the struct itself: FieldByName also finds fields promoted from embedded
+	// structs, whose Offset is relative to the embedded struct
 	f, ok := t.FieldByName("_unknownFields")
-	if ok && f.Type.Kind() == reflect.Slice && f.Type.Elem().Kind() == reflect.Uint8 {
+	if ok && len(f.Index) == 1 && f.Type.Kind() == reflect.Slice && f.Type.Elem().Kind() == reflect.Uint8 {
 		d.hasUnknownFields = true
 		d.unknownFieldsOffset = f.Offset
 	}
